@@ -109,6 +109,13 @@ func (u *Unit) evalCall(st *State, call *ast.CallExpr) Val {
 		return Val{Kind: KTuple}
 	}
 	if fn == nil {
+		// a package-level variable initialised with a function (`var NewX = pkg.NewX`) and never reassigned
+		if alias := u.funcAlias(fun); alias != nil {
+			fn = alias
+			u.note("assumptions", "package variable "+exprStr(u.eng.fset, fun)+" is treated as the function it is initialised with ("+funcKey(alias)+")")
+		}
+	}
+	if fn == nil {
 		// call through a function value
 		fv := u.eval(st, fun)
 		var args []Val
@@ -272,7 +279,7 @@ func (u *Unit) dispatchCall(st *State, call *ast.CallExpr, fn *types.Func, recv 
 // callContract: assert pre, havoc modifies, assume post.
 func (u *Unit) callContract(st *State, c *Contract, fn *types.Func, recv *Val, args []Val, pos token.Pos, label string) Val {
 	sig := fn.Type().(*types.Signature)
-	env := u.contractEnv(st, nil, c, fn, sig, recv, args)
+	env := u.contractEnv(st, st, c, fn, sig, recv, args) // in the pre-state old(e) is e
 	short := shortFuncName(funcKey(fn))
 	// lets (pre-state)
 	for _, l := range c.Lets {
@@ -1162,4 +1169,60 @@ func (u *Unit) verifPoint(st *State, call *ast.CallExpr) {
 			}
 		}
 	}
+}
+
+
+// funcAlias resolves `var F = pkg.G` (package level, function-typed) to G.
+func (u *Unit) funcAlias(fun ast.Expr) *types.Func {
+	var id *ast.Ident
+	switch f := fun.(type) {
+	case *ast.Ident:
+		id = f
+	case *ast.SelectorExpr:
+		id = f.Sel
+	default:
+		return nil
+	}
+	v, ok := u.info().ObjectOf(id).(*types.Var)
+	if !ok || v.Pkg() == nil || v.Parent() != v.Pkg().Scope() {
+		return nil
+	}
+	p := u.eng.pkgs[v.Pkg().Path()]
+	if p == nil {
+		return nil
+	}
+	for _, file := range p.Syntax {
+		for _, d := range file.Decls {
+			gd, ok := d.(*ast.GenDecl)
+			if !ok {
+				continue
+			}
+			for _, sp := range gd.Specs {
+				vs, ok := sp.(*ast.ValueSpec)
+				if !ok || len(vs.Names) != len(vs.Values) {
+					continue
+				}
+				for i, n := range vs.Names {
+					if p.TypesInfo.Defs[n] != v {
+						continue
+					}
+					var tid *ast.Ident
+					switch e := ast.Unparen(vs.Values[i]).(type) {
+					case *ast.Ident:
+						tid = e
+					case *ast.SelectorExpr:
+						tid = e.Sel
+					}
+					if tid == nil {
+						return nil
+					}
+					if fn, ok := p.TypesInfo.ObjectOf(tid).(*types.Func); ok {
+						return fn
+					}
+					return nil
+				}
+			}
+		}
+	}
+	return nil
 }
